@@ -160,6 +160,7 @@ func unionScenario(o unionOpts) *Scenario {
 		govOnce("gov(wrk:fees=5/1/1)", model.WrkParams, model.AnchorParams{FeeReg: 5, FeeRec: 1, FeePur: 1, Denom: mc.Nund, Default: 2, Max: 4}),
 		govOnce("gov(stream:fee=0.5)", model.StrParams, "0.500000000000000000"),
 		failing(entGov("gov(ent:signers=O;min=1)+failing-msg", "O", 1, 100, "gov", 1)),
+		vetoed(govOnce("gov(stream:fee=0.5),vetoed", model.StrParams, "0.500000000000000000")),
 		Action{Name: "sim(whitelist(S1,+O);raise(P1,5))", Dt: ms, Sim: func(*model.State) []model.Tx {
 			return []model.Tx{{Msgs: []model.Msg{{Kind: model.EntWhitelist, From: "S1", To: "O", N: 1}}}, {Msgs: []model.Msg{{Kind: model.EntRaise, From: "P1", Den: mc.Nund, Amt: "5"}}}}
 		}},
@@ -229,6 +230,15 @@ func unionScenario(o unionOpts) *Scenario {
 			{Kind: model.StrTopUp, From: "O", To: "R1", Den: mc.Tok, Amt: huge}}, Signers: []string{"A", "O"}}))
 	}
 	return s
+}
+
+// vetoed: the proposal is voted down with veto; its deposit is burned (the one protocol burn these
+// histories can reach).
+func vetoed(a Action) Action {
+	g := *a.Gov
+	g.Veto = true
+	a.Gov = &g
+	return a
 }
 
 func shortBig(b *big.Int) string {
@@ -312,10 +322,10 @@ func init() {
 		return &Check{ID: "C02",
 			Runs: []Run{{S: sc, Opt: map[Tier]Options{
 				Quick:    {Depth: 4, Budget: 150 * time.Second, ReplayEvery: 16},
-				Thorough: {Depth: 6, Budget: 25 * time.Minute, ReplayEvery: 32, MaxStates: 500000},
+				Thorough: {Depth: 6, Budget: 12 * time.Minute, ReplayEvery: 32, MaxStates: 500000},
 			}}, {S: c02Orders(), Opt: map[Tier]Options{
 				Quick:    {Depth: 5, Budget: 100 * time.Second, ReplayEvery: 16},
-				Thorough: {Depth: 8, Budget: 20 * time.Minute, ReplayEvery: 32, MaxStates: 500000},
+				Thorough: {Depth: 8, Budget: 8 * time.Minute, ReplayEvery: 32, MaxStates: 500000},
 			}}},
 			Owns:        ownsAny("supply", "invariant:bank"),
 			Assumptions: []string{"IBC vouchers (the only other Minter permission) are out of scope: no IBC channel exists in the explored chains"},
